@@ -25,6 +25,20 @@ Why(e) ==
     [] e.op = "div" ->
          FirstBad(e.outs, LAMBDA o : DivWhy(m, e.a, e.b, o.out, e.hint.binv, e.hint.g.m))
     [] e.op = "mix" -> IF AllPanic(e.outs) THEN "" ELSE "no-panic-on-mixed-rings"
+    \* clone_from across rings: the destination becomes the source (its residue, its modulus, a member of its ring)
+    [] e.op = "clonefrom" ->
+         IF ~IsInt(e.m2) \/ e.m2.m = <<>> THEN "malformed-operand"
+         ELSE LET m2 == e.m2.m  exp == Red(e.b, m2)  exp1 == Red(IAdd(e.b, IOne), m2) IN
+         FirstBad(e.outs, LAMBDA o :
+           IF o.out.k # "ok" THEN "clone-from-panicked"
+           ELSE FoldLeft(LAMBDA acc, f :
+                  IF acc # "" THEN acc
+                  ELSE IF f = "cf+1" THEN ResidueWhy(o.out.v.r, m2, exp1)
+                  ELSE IF f = "cf==" THEN (IF o.out.v.r.m = One THEN "" ELSE "clone-not-equal-to-source")
+                  ELSE LET w == ResidueWhy(o.out.v.r, m2, exp) IN
+                       IF w # "" THEN w
+                       ELSE IF ~(IsInt(o.out.v.mod) /\ o.out.v.mod.m = m2 /\ o.out.v.mod.s = 0) THEN "modulus-not-cloned" ELSE "",
+                  "", o.forms))
     [] OTHER -> "unknown-op"
 
 Account(st, i) ==
